@@ -314,13 +314,13 @@ Section ClassLoops.
       end.
   End LitTry.
 
-  (* tag dispatch: the variant whose declared tag equals the tag in the data *)
+  (* tag dispatch: the variant whose declared tag equals the tag in the data -- same kind and equal, as for a Literal *)
   Section Tag.
     Context {C : Type} (tagv : pyval) (g : T -> C).
     Fixpoint with_variant (vs : list (pyval * T)) : option C :=
       match vs with
       | [] => None
-      | (tv, t) :: r => if py_eqb tagv tv then Some (g t) else with_variant r
+      | (tv, t) :: r => if lit_match tagv tv then Some (g t) else with_variant r
       end.
   End Tag.
 End ClassLoops.
